@@ -60,6 +60,7 @@ struct GenOpts {
     // swarm knobs, drawn per run by the scenario's generate(); all have defaults
     int max_wells = 6, max_steps = 8, max_actions = 2, max_udq = 2;
     int min_wells = 1;
+    bool reparent_groups = false;           // GRUPTREE records that move an existing group (later blocks: anywhere legal; action bodies: to FIELD)
     bool allow_msw = true, allow_history = true, allow_groups = true;
     bool restart_safe_conditions = false;   // ACTIONX conditions only over quantities a restart restores
     bool nonmidnight = true;                // report steps off midnight (TSTEP fractions, DATES with time)
